@@ -509,6 +509,23 @@ func c13GlobalOps(spec c13GlobalSpec, descs []any) []c13Op {
 			return c13Outcome(func() (any, error) { return nil, schema.DescribeScope().ValidateCompatibility(cmpx.DeepCopy(d)) })
 		}})
 	}
+	// conversions that consult package-level tables (boolean words in every spelling, ...)
+	boolS, intS, strS := schema.NewBoolSchema(), schema.NewIntSchema(nil, nil, nil), schema.NewStringSchema(nil, nil, nil)
+	for _, w := range []string{"True", "YES", "oFf", "No", "ENABLED", "Disabled", "On", "FALSE", "y", "N", "Yes", "tRuE", "true", "0", "Enable", "DISABLE"} {
+		w := w
+		ops = append(ops, c13Op{"BoolSchema.Unserialize#" + w, func(any) string {
+			return c13Outcome(func() (any, error) { return boolS.Unserialize(w) })
+		}})
+	}
+	for i, v := range []any{"12", uint64(7), 3.0, "0x10", int8(-4)} {
+		v := v
+		ops = append(ops, c13Op{fmt.Sprintf("IntSchema.Unserialize#%d", i), func(any) string {
+			return c13Outcome(func() (any, error) { return intS.Unserialize(v) })
+		}})
+		ops = append(ops, c13Op{fmt.Sprintf("StringSchema.Unserialize#%d", i), func(any) string {
+			return c13Outcome(func() (any, error) { return strS.Unserialize(v) })
+		}})
+	}
 	ops = append(ops, c13Op{"DescribeScope().SelfSerialize", func(any) string {
 		return c13Outcome(func() (any, error) { return schema.DescribeScope().SelfSerialize() })
 	}})
